@@ -36,7 +36,7 @@ type PairOpts struct {
 	DisableStandaloneSSE bool
 	AsyncDelete          bool
 	BodyLatency          func(req *http.Request, reqBody []byte) time.Duration // see InProc.BodyLatency
-	OAuth                auth.OAuthHandler // streamable client: OAuthHandler (the server need not require authorization)
+	OAuth                auth.OAuthHandler                                     // streamable client: OAuthHandler (the server need not require authorization)
 }
 
 // Pair is a connected client/server session pair.
